@@ -283,6 +283,16 @@ impl Ctx {
         }
     }
 
+    /// Size of a fixed (seed-independent) directed case list: full natively, reduced under
+    /// sanitizers / Miri (observation gates are only enforced for the native full-scale run).
+    pub fn dn(&self, n: u64) -> u64 {
+        match self.scale {
+            Scale::Full => n,
+            Scale::San => (n / 6).max(4).min(n),
+            Scale::Miri => n.min(5),
+        }
+    }
+
     pub fn report(&self, v: Violation) {
         self.n_viol.fetch_add(1, Ordering::Relaxed);
         let mut g = self.violations.lock().unwrap();
